@@ -201,6 +201,9 @@ pub struct Server {
     script_cache: Arc<dyn ScriptCaching>,
     /// Blocking operations manager
     blocking_manager: Arc<BlockingManager>,
+    
+    /// True while EXEC is running its queued commands (blocking commands must not block then)
+    executing_transaction: bool,
 }
 
 impl Server {
@@ -350,6 +353,7 @@ impl Server {
             monitoring,
             script_cache,
             blocking_manager,
+            executing_transaction: false,
         })
     }
     
@@ -1177,6 +1181,7 @@ impl Server {
         
         // Execute commands
         let mut results = Vec::new();
+        self.executing_transaction = true;
         for cmd_parts in commands_to_execute.iter() {
             // A queued SELECT changes the database for the commands that follow it
             let db = self.connections.with_connection(conn_id, |conn| conn.db_index).unwrap_or(db_index);
@@ -1187,6 +1192,7 @@ impl Server {
                 }
             }
         }
+        self.executing_transaction = false;
         
         Ok(RespFrame::Array(Some(results)))
     }
@@ -3126,6 +3132,11 @@ impl Server {
             }
         }
         
+        // Inside MULTI/EXEC a blocking pop never blocks: it answers like a timeout at once
+        if self.executing_transaction {
+            return Ok(RespFrame::null_array());
+        }
+        
         // No data available, register as blocked
         // A timeout beyond what the clock can represent means "wait forever"
         let deadline = timeout.and_then(|t| Instant::now().checked_add(t));
@@ -3188,6 +3199,11 @@ impl Server {
                     RespFrame::from_bytes(value),
                 ])));
             }
+        }
+        
+        // Inside MULTI/EXEC a blocking pop never blocks: it answers like a timeout at once
+        if self.executing_transaction {
+            return Ok(RespFrame::null_array());
         }
         
         // No data available, register as blocked
